@@ -358,6 +358,104 @@ def c20_scenario(bins, idx, nt, flt, rng, heavy=False, stall=False):
         fx.cleanup()
 
 
+class SlowListener(Listener):
+    """A listener whose own output is consumed slowly (a terminal over a slow link, a pager, a FIFO): its standard output
+    is a pipe that the driver drains at a bounded rate until told otherwise."""
+    def __init__(self, fx, flt, rate=250000):
+        import threading
+        self.fx = fx
+        self.path = os.path.join(fx.root, "tail-%d.out" % random.getrandbits(30))
+        args = ["log", "tail"] + (["--stdout"] if flt.get("stdout") else []) + (["--stderr"] if flt.get("stderr") else [])
+        self.out = open(self.path, "wb")
+        self.p = fx.spawn(args, stdout=subprocess.PIPE, stderr=subprocess.DEVNULL)
+        self.fast = False
+        def pump():
+            fd = self.p.stdout.fileno()
+            while True:
+                try:
+                    b = os.read(fd, 16384)
+                except OSError:
+                    break
+                if not b:
+                    break
+                self.out.write(b)
+                self.out.flush()
+                if not self.fast:
+                    time.sleep(len(b) / float(rate))
+        self.th = threading.Thread(target=pump, daemon=True)
+        self.th.start()
+        deadline = time.time() + 15
+        while not listening(fx.log_port) and time.time() < deadline and self.p.poll() is None:
+            time.sleep(0.005)
+        self.ready = listening(fx.log_port)
+
+    def kill(self):
+        self.fx.kill_group(self.p)
+        self.p.wait()
+        self.th.join(timeout=10)
+        self.out.close()
+
+
+def c20_two_runs_scenario(bins, idx, nt, rng):
+    """Two runs one straight after the other while the listener is still printing the first one's backlog: the second
+    run's connection is served after the first one's, never mixed into it."""
+    targets = [{"path": "t%d" % i} for i in range(nt)]
+    fx = fixture.Fixture(bins, targets)
+    tnames = [t["path"] for t in targets]
+    cmds = ["build", "test"]
+    try:
+        for t in tnames:
+            for c in cmds:
+                steps = []
+                for s_ in ("stdout", "stderr"):
+                    steps.append({"op": "out", "stream": s_, "text": "".join("%s %s %s line %d %s\n" % (t, c, s_, i, "z" * 80) for i in range(2500))})
+                steps.append({"op": "exit", "code": 0})
+                fx.add_cmd(t, c, steps, ext=".sh")
+        fx.git_init()
+        flt = {"stdout": True, "stderr": True}
+        lst = SlowListener(fx, flt)
+        if not lst.ready:
+            raise vlib.ToolError("listener did not come up")
+        r1 = fx.monorail(["run", "-c", "build"], timeout=170)
+        r2 = fx.monorail(["run", "-c", "test"], timeout=170)
+        lst.fast = True
+        raw = lst.drain_and_kill()
+        logs = {}
+        logs.update(stored_logs(bins, r1, tnames, ["build"]))
+        logs.update(stored_logs(bins, r2, tnames, ["test"]))
+        lines = raw.decode("utf-8", "replace").split("\n")
+        if lines and lines[-1] == "":
+            lines.pop()
+        preamble_ok = bool(lines) and bool(PRE_RE.match(lines[0]))
+        blocks, orphans, cur = [], 0, None
+        for ln in lines[1:] if preamble_ok else lines:
+            m = HDR_RE.match(ln)
+            if m:
+                cur = {"stream": m.group(1), "target": m.group(2), "cmd": m.group(3), "lines": []}
+                blocks.append(cur)
+            elif PRE_RE.match(ln):
+                cur = None                  # the stream header of the next client
+            elif cur is None:
+                orphans += 1
+            else:
+                cur["lines"].append(ln)
+        def dg(ln):
+            return ln if len(ln) <= 256 else "#%s:%d" % (hashlib.sha256(ln.encode("utf-8", "replace")).hexdigest()[:20], len(ln))
+        for b in blocks:
+            b["lines"] = [dg(x) for x in b["lines"]]
+        tasks = []
+        for (c, t, s_), b in sorted(logs.items()):
+            sl = (b or b"").decode("utf-8", "replace").split("\n")
+            if sl and sl[-1] == "":
+                sl.pop()
+            tasks.append({"stream": s_, "target": t, "cmd": c, "stored": [dg(x) for x in sl]})
+        rc = max(abs(r1["rc"] if r1["rc"] is not None else 9), abs(r2["rc"] if r2["rc"] is not None else 9))
+        return {"ev": "c20", "scenario": idx, "filter": {"stdout": True, "stderr": True, "targets": [], "commands": []},
+                "tasks": tasks, "blocks": blocks, "orphans": orphans, "preamble_ok": preamble_ok, "rc": rc}
+    finally:
+        fx.cleanup()
+
+
 FILTERS = [{"stdout": True, "stderr": True}, {"stdout": True}, {"stderr": True},
            {"stdout": True, "stderr": True, "commands": ["build"], "targets": [0, 1]},
            {"stdout": True, "stderr": True, "targets": [0]}, {"stdout": True, "targets": [1, 2]},
@@ -404,12 +502,16 @@ def run(pid, tier):
     if pid == "C20":
         for k in range(2 if tier == "quick" else 8):
             jobs.append(("c20stall", 1001 + 2 * k, 4 + k % 3, FILTERS[0 if k % 2 == 0 else 1], (3.4, 7.5, 12.0, 33.0)[k % 4]))
+        for k in range(1 if tier == "quick" else 4):
+            jobs.append(("c20two", 2001 + k, 3 + k, None))
     def one(j):
         rr = random.Random(chk.seed * 53 + j[1])
         if j[0] == "c15":
             return c15_scenario(bins, j[1], j[2], j[3], rr)
         if j[0] == "c15cancel":
             return c15_scenario(bins, j[1], j[2], j[3], rr, cancel=True)
+        if j[0] == "c20two":
+            return c20_two_runs_scenario(bins, j[1], j[2], rr)
         if j[0] == "c20stall":
             return c20_scenario(bins, j[1], j[2], j[3], rr, heavy=True, stall=j[4])
         return c20_scenario(bins, j[1], j[2], j[3], rr, heavy=(j[1] % 4 == 1))
